@@ -100,8 +100,23 @@ impl Block {
         let capstone: usize = 1/*tag 11*/ + 4/*fixed32 capstone*/;
         let footer_body: usize = num_restarts * 4;
         let footer_head: usize = 1/*tag 10*/ + v64::from(footer_body).pack_sz();
-        let restarts_idx = bytes.len() - capstone - footer_body;
-        let restarts_boundary = restarts_idx - footer_head;
+        // The restart count comes from the bytes themselves; a count that does not fit the block
+        // is corruption, not an arithmetic underflow.
+        let restarts_idx = match bytes.len().checked_sub(capstone + footer_body) {
+            Some(restarts_idx) => restarts_idx,
+            None => {
+                return Err(block_too_small(bytes.len(), capstone + footer_body));
+            }
+        };
+        let restarts_boundary = match restarts_idx.checked_sub(footer_head) {
+            Some(restarts_boundary) => restarts_boundary,
+            None => {
+                return Err(block_too_small(
+                    bytes.len(),
+                    capstone + footer_body + footer_head,
+                ));
+            }
+        };
         // Reader.
         let block = Block {
             bytes,
